@@ -16,6 +16,8 @@ mod c03;
 mod c06;
 #[cfg(feature = "c06s")]
 mod c06s;
+#[cfg(feature = "c07h")]
+mod c07h;
 #[cfg(feature = "c08")]
 mod c08;
 #[cfg(feature = "c09")]
@@ -63,13 +65,18 @@ fn gen(prop: &str, seed: u64, thorough: bool, count: Option<usize>) -> Vec<Value
     let n = |q: usize, t: usize| count.unwrap_or(if thorough { t } else { q });
     match prop {
         "C01" => for i in 0..n(300, 6000) { let mut rr = r.fork(); out.push(gen_store::gen_c01(&mut rr, i as u64, thorough)); },
-        "C04" => for i in 0..n(300, 6000) { let mut rr = r.fork(); out.push(gen_store::gen_c04(&mut rr, i as u64, thorough)); },
+        "C04" => {
+            for i in 0..n(300, 6000) { let mut rr = r.fork(); out.push(gen_store::gen_c04(&mut rr, i as u64, thorough)); }
+            for i in 0..n(120, 2400) { let mut rr = r.fork(); out.push(gen_store::gen_c04_json_malformed(&mut rr, i as u64, thorough)); }
+        },
         "C05" => for i in 0..n(150, 3000) { let mut rr = r.fork(); out.push(gen_store::gen_c05(&mut rr, i as u64, thorough)); },
         "C06" => for i in 0..n(200, 3000) { let mut rr = r.fork(); out.push(gen_store::gen_c06(&mut rr, i as u64, thorough)); },
         #[cfg(feature = "c06")]
         "C06K" => out = c06::gen(&mut r, thorough, count),
         #[cfg(feature = "c06s")]
         "C06S" => out = c06s::gen(&mut r, thorough, count),
+        #[cfg(feature = "c07h")]
+        "C07H" => out = c07h::gen(&mut r, thorough, count),
         "C07" => for i in 0..n(200, 4000) { let mut rr = r.fork(); out.push(gen_store::gen_c07(&mut rr, i as u64, thorough)); },
         "C16" => for i in 0..n(120, 1500) { let mut rr = r.fork(); out.push(gen_store::gen_c16(&mut rr, i as u64, page_size(), thorough)); },
         "C17" => for i in 0..n(300, 4000) { let mut rr = r.fork(); out.push(gen_store::gen_c17(&mut rr, i as u64, thorough)); },
@@ -110,6 +117,7 @@ fn exec_case(case: &Value, tag: &str) -> Value {
     let kind = case["kind"].as_str().unwrap_or("");
     let res = std::panic::catch_unwind(std::panic::AssertUnwindSafe(|| match kind {
         "store" => store_case::exec(case, tag),
+        "c04j" => gen_store::c04j::exec(case, tag),
         #[cfg(feature = "c04s")]
         k if k == "c04s" || k.starts_with("c04s:") => c04s::exec(case, tag),
         #[cfg(feature = "c02")]
@@ -120,6 +128,8 @@ fn exec_case(case: &Value, tag: &str) -> Value {
         k if k == "c06" || k.starts_with("c06:") => c06::exec(case, tag),
         #[cfg(feature = "c06s")]
         k if k == "c06s" || k.starts_with("c06s:") => c06s::exec(case, tag),
+        #[cfg(feature = "c07h")]
+        k if k == "c07h" || k.starts_with("c07h:") => c07h::exec(case, tag),
         #[cfg(feature = "c08")]
         k if k == "c08" || k.starts_with("c08:") => c08::exec(case, tag),
         #[cfg(feature = "c09")]
